@@ -1396,3 +1396,18 @@ GENERATORS.insert(0, ("C11.to_bbox.y_at_origin", _axis_at_origin))
 GENERATORS.insert(0, ("C11.to_bbox.x_at_origin", _axis_at_origin))
 GENERATORS.insert(0, ("C11.to_bbox.both_at_origin", _axis_at_origin))
 GENERATORS.insert(0, ("C11.to_bbox.absent_position", _axis_at_origin))
+
+
+def _xyloc_left_behind(repo, ob, failure):
+    """xy-loc never reaches the output, and an element carrying it without xy is placed and usable as a reference"""
+    docs = ['<svg><rect cxy="5" wh="4 2" xy-loc="c"/></svg>',
+            '<svg><rect id="a" xy="10 20" wh="30 40"/><rect id="b" x="#a@r" y="#a@b" xy-loc="c" wh="10"/><rect id="c" xy="^|h" wh="2"/></svg>']
+    for doc in docs:
+        r = run_svgdx(repo, doc, args=("--no-auto-styles",))
+        if r["rc"] != 0 or "xy-loc" in r["out"]:
+            return {"input": doc, "args": ["--no-auto-styles"], "observed": (r["out"].strip() or r["err"].strip())[-250:], "expected": "no xy-loc attribute in the output"}
+    return None
+
+
+GENERATORS.insert(0, ("C11.shorthand.xyloc", _xyloc_left_behind))
+GENERATORS.insert(0, ("C09.loc.xyloc", _xyloc_left_behind))
